@@ -423,6 +423,42 @@ fn run_op(w: &mut World, op: &Value) -> Value {
                 Err(e) => json!(format!("{:?}", e)),
             }
         }
+        "validate_header" => {
+            use bitcoin::consensus::Decodable;
+            struct Store { by_hash: BTreeMap<Vec<u8>, Header>, by_height: BTreeMap<u32, Header>, tip: u32 }
+            impl ic_btc_validation::HeaderStore for Store {
+                fn get_with_block_hash(&self, hash: &bitcoin::BlockHash) -> Option<Header> {
+                    use bitcoin::hashes::Hash;
+                    self.by_hash.get(&hash.to_byte_array().to_vec()).copied()
+                }
+                fn get_with_height(&self, height: u32) -> Option<Header> { self.by_height.get(&height).copied() }
+                fn height(&self) -> u32 { self.tip }
+            }
+            let dec = |h: &str| Header::consensus_decode(&mut &hex::decode(h).unwrap()[..]).unwrap();
+            let mut st = Store { by_hash: BTreeMap::new(), by_height: BTreeMap::new(), tip: op["tip_height"].as_u64().unwrap() as u32 };
+            for (h, v) in op["headers"].as_object().unwrap() {
+                let hd = dec(v.as_str().unwrap());
+                use bitcoin::hashes::Hash;
+                st.by_hash.insert(hd.block_hash().to_byte_array().to_vec(), hd);
+                st.by_height.insert(h.parse().unwrap(), hd);
+            }
+            let net = match op["network"].as_str().unwrap() {
+                "Bitcoin" => BtcNetwork::Bitcoin,
+                "Testnet" => BtcNetwork::Testnet,
+                "Testnet4" => BtcNetwork::Testnet4,
+                "Signet" => BtcNetwork::Signet,
+                _ => BtcNetwork::Regtest,
+            };
+            let cand = dec(op["candidate"].as_str().unwrap());
+            let v = ic_btc_validation::HeaderValidator::new(st, net);
+            match v.validate_header(&cand, std::time::Duration::from_secs(op["now"].as_u64().unwrap())) {
+                Ok(()) => json!("Ok"),
+                Err(e) => {
+                    let s = format!("{:?}", e);
+                    json!(s.split(|c: char| c == ' ' || c == '{' || c == '(').next().unwrap().to_string())
+                }
+            }
+        }
         "tree" => {
             let hashes = with_state(|s| unstable_blocks::get_block_hashes(&s.unstable_blocks));
             json!({"blocks": hashes.iter().map(|h| block_id_of(w, &h.to_vec())).collect::<Vec<_>>(),
